@@ -191,14 +191,22 @@ func Imports(n int) []dump.File {
 	var sb strings.Builder
 	sb.WriteString(hdr("m"))
 	for i := 1; i <= n; i++ {
-		fmt.Fprintf(&sb, " import lib%d { prefix p%d; }", i, i)
+		fmt.Fprintf(&sb, " import lib%d { prefix %s; }", i, ImportPrefix(n, i))
 		fs = append(fs, dump.File{Name: fmt.Sprintf("lib%d.yang", i), Text: hdr(fmt.Sprintf("lib%d", i)) + fmt.Sprintf(` typedef t { type int8 { range "0..%d"; } } identity b; container c; }`, i%100+1)})
 	}
 	for i := 1; i <= n; i++ {
-		fmt.Fprintf(&sb, " typedef t%d { type p%d:t; } identity i%d { base p%d:b; } leaf l%d { type p%d:t; } augment /p%d:c { leaf a { type t%d; } }", i, i, i, i, i, i, i, i)
+		p := ImportPrefix(n, i)
+		fmt.Fprintf(&sb, " typedef t%d { type %s:t; } identity i%d { base %s:b; } leaf l%d { type %s:t; } augment /%s:c { leaf a { type t%d; } } deviation /%s:c { deviate add { config false; } }", i, p, i, p, i, p, p, i, p)
 	}
 	sb.WriteString(" }")
 	return append([]dump.File{{Name: "m.yang", Text: sb.String()}}, fs...)
+}
+
+// ImportPrefix is the prefix under which Imports(n) imports lib(i): vendor-style words that sort in
+// another order than the module names (and than the import statements).
+func ImportPrefix(n, i int) string {
+	words := []string{"sys", "acl", "if", "hw", "auth", "ospf", "netinst", "bgp", "qos", "lldp", "vlan", "aaa", "ntp", "dns", "mpls", "te", "isis"}
+	return fmt.Sprintf("%s%d", words[(i*5)%len(words)], n+1-i)
 }
 
 // Includes: module m with submodules s1..sn (each a typedef, an identity derived from the previous
@@ -534,4 +542,20 @@ func EqualNames(n int) []dump.File {
 		fs = append(fs, dump.File{Name: name + ".yang", Text: hdr(name) + " import m0 { prefix z; }" + prev + fmt.Sprintf(" identity a { base z:root; } identity k { base z:root; } identity z { base z:root;%s } identity own%d { base z:root; } }", zb, i)})
 	}
 	return fs
+}
+
+// UsesInOneNode: container top with n uses statements of n groupings, each bringing a container with
+// a leaf, a list with a key, and an action with input.
+func UsesInOneNode(n int) dump.File {
+	var sb strings.Builder
+	sb.WriteString(hdr("m"))
+	for i := 0; i < n; i++ {
+		fmt.Fprintf(&sb, " grouping g%d { container c%d { leaf l%d { type string; } list li { key k; leaf k { type string; } } action a%d { input { leaf p { type string; } } } } leaf top%d { type string; } }", i, i, i, i, i)
+	}
+	sb.WriteString(" container top {")
+	for i := 0; i < n; i++ {
+		fmt.Fprintf(&sb, " uses g%d;", i)
+	}
+	sb.WriteString(" } }")
+	return dump.File{Name: "m.yang", Text: sb.String()}
 }
